@@ -393,8 +393,9 @@ def hv3(F, R):
         fn = F.fn(VMD + "::" + name)
         # iterator form: self.<table>.iter().position(|x| x.<handle> == id).ok_or(Error::BadHandle)
         ds = fn.defs().get(0, [])
-        if len(ds) == 1 and ds[0][0] == "call":
-            ct = fn.call_term(ds[0][2], ds[0][1])
+        ct0 = fn._local_term(0, 0)          # (the result of a lowered `..ok_or(e)` is still that call as a term)
+        if (len(ds) == 1 and ds[0][0] == "call") or (ct0[0] == "call" and (ct0[1] or "").endswith(("Option::ok_or", "Option::ok_or_else"))):
+            ct = fn.call_term(ds[0][2], ds[0][1]) if (len(ds) == 1 and ds[0][0] == "call") else ct0
             if (ct[1] or "").endswith(("Option::ok_or", "Option::ok_or_else")):
                 from .rules_guard import closure_equalities, _iter_table
                 pos = strip_refs(ct[2][0])
@@ -771,6 +772,10 @@ def lf8(F, R):
         ok = has_sub(first, lambda q: q[:2] == ("arg", 2)) and not has_sub(first, lambda q: q[0] == "call" and q[1] and q[1].endswith("Option::take"))
         ok = ok and has_sub(second, lambda q: q[0] == "call" and q[1] and q[1].endswith("Option::take") and has_sub(q, lambda z: z[0] == "place" and last_field(z) == "unpaired_surrogate"))
     R.require(ok, fn, "carry-after-fragment", "decode_utf16 must run over chain(this fragment's units, the unit carried over from the previous call taken with Option::take); got %s" % tstr(src)[:200], fn.loc(dec[0][0]))
+    # once the held-back unit has been taken out of self it must reach the decoder: no way out of push in between
+    takes = [b for b, t in fn.calls() if (callee_of(t) or "").endswith("Option::take") and "unpaired_surrogate" in tstr(fn.call_term(t, b))]
+    lost = [b for b in takes if any(r in fn.reach_after(b, cut_blocks=[dec[0][0]]) for r in fn.return_blocks())]
+    R.require(bool(takes) and not lost, fn, "carry-not-dropped", "push can return after taking the held-back surrogate half out of the buffer without decoding it (an early return for an empty fragment?): the half of a pair carried across an empty fragment is lost", fn.loc(lost[0]) if lost else fn.loc(0))
     # a fragment ends at its first 0x0000 unit and nowhere else (0xFFFF is an ordinary code unit before the terminator)
     pos = [(b, t) for b, t in fn.calls() if (callee_of(t) or "").endswith("Iterator::position")]
     okt = False
@@ -1388,6 +1393,42 @@ BLOCK_MUTATORS = {
     "volume_mgr::VolumeManager::write": {"copy_from_slice"},                   # the caller's bytes into the data block
     "volume_mgr::VolumeManager::read": {"copy_from_slice"},                    # the data block into the caller's buffer
 }
+
+
+@rule("TC1", ["C05", "C03", "C10"], floor=3,
+      doc="chain surgery reads a link before it overwrites it: truncate_cluster_chain looks up the successor of the kept cluster before it terminates that cluster (END_OF_FILE), and alloc_cluster / make_dir never undo their work by freeing or blanking what they did not just create: the only update_fat(.., EMPTY) alloc_cluster may issue is for the cluster its own search returned, and no function stores a byte into the name of a DirEntry it has already written (0x00 there is the end-of-directory marker)")
+def tc1(F, R):
+    fn = F.fn(FATVOL + "::truncate_cluster_chain")
+    eofs = [(b, t) for b, t in fn.calls() if call_matches(t, ("FatVolume::update_fat",)) and (lambda v: v[0] == "c" and v[2] and v[2].endswith("END_OF_FILE"))(fn.term_of_operand(t["args"][3], b)) and strip_refs(fn.term_of_operand(t["args"][2], b))[:2] == ("arg", 3)]
+    looks = [(b, t) for b, t in fn.calls() if call_matches(t, ("FatVolume::next_cluster",)) and strip_refs(fn.term_of_operand(t["args"][2], b))[:2] == ("arg", 3)]
+    R.require(len(eofs) >= 1 and len(looks) >= 1, fn, "sites", "expected the successor lookup of the kept cluster and its END_OF_FILE mark in truncate_cluster_chain", fn.loc(0))
+    bad = [b for b, t in looks if any(b in fn.reach_after(eb) for eb, et in eofs)]
+    R.require(not bad, fn, "lookup-before-terminate", "the kept cluster is marked END_OF_FILE before its successor has been looked up: the lookup then answers end-of-chain and the tail of the chain is never released (lost clusters)", fn.loc(bad[0]) if bad else fn.loc(0))
+    # alloc_cluster frees nothing but what it has just found
+    al = F.fn(FATVOL + "::alloc_cluster")
+    frees = []
+    for b, t in al.calls():
+        if call_matches(t, ("FatVolume::update_fat",)):
+            val = al.term_of_operand(t["args"][3], b)
+            if val[0] == "c" and val[2] and val[2].endswith("ClusterId::EMPTY"):
+                tgt = strip_refs(al.term_of_operand(t["args"][2], b))
+                found = has_sub(tgt, lambda q: q[0] == "call" and q[1] and q[1].endswith("find_next_free_cluster")) or (tgt[0] == "var" and all(has_sub(d, lambda q: q[0] == "call" and q[1] and q[1].endswith("find_next_free_cluster")) for d in var_def_terms(al, tgt[1])) and var_def_terms(al, tgt[1]))
+                frees.append((b, bool(found), tstr(tgt)[:60]))
+    badf = [x for x in frees if not x[1]]
+    R.require(not badf, al, "alloc-frees-own-only", "alloc_cluster sets the FAT entry of %s to EMPTY, which is not the cluster its search has just found: an undo that frees the chain's previous last cluster leaves a live chain running into a free cluster" % [x[2] for x in badf], al.loc(badf[0][0]) if badf else al.loc(0))
+    # no patching of name bytes of an entry object in the FS layer
+    n = 0
+    for f in F.fns:
+        if not f.npath.startswith((FATVOL + "::", VM + "::", VMD + "::")):
+            continue
+        for b, i, s_ in f.stmts():
+            if s_["k"] == "Assign" and s_["p"]["proj"]:
+                names = [e[2] for e in f.canon_place(s_["p"])["proj"] if e[0] == "field"]
+                if "contents" in names and "name" in names and any(e[0] in ("index", "cidx") for e in s_["p"]["proj"]):
+                    n += 1
+                    R.bad(f, "name-byte-store", "%s stores a byte into the name of a directory entry object (%s): a 0x00 / 0xE5 written back this way ends the directory or deletes the entry outside the delete path" % (f.npath.split("::")[-1], tstr(f.term_of_rvalue(s_["rv"], b))[:30]), f.loc(b, i))
+    if n == 0:
+        R.ok(None, "no-name-patching", "no FS-layer function stores single bytes into a DirEntry's name")
 
 
 @rule("HN1", ["C16", "C05"], floor=2,
